@@ -4,6 +4,7 @@ From Coq Require Import List Bool Arith ZArith NArith.
 From XD Require Import lib.ListAux lib.Toposort model.Manager model.ManagerData
   proofs.ManagerIdx proofs.ManagerInv proofs.ManagerDataInv proofs.ManagerFrozen.
 From XD Require Import model.TasksSem gen.GenTasks proofs.TasksSrc.
+From XD Require Import model.TasksSemData gen.GenTasksData proofs.TasksSrcData.
 Import ListNotations.
 Local Open Scope nat_scope.
 
@@ -119,6 +120,28 @@ Qed.
 Print Assumptions C17_frozen_rejects.
 Print Assumptions C17_values_propagate.
 Print Assumptions C17_unfreeze_transparent.
+(* copy_expr_from as written (translated on every run) is a load of the other manager's expression tasks under the named
+   container: it is one MLoad step of the model, hence covered by C17_frozen_step - on a frozen manager a non-empty copy
+   that would add or overwrite a definition is rejected with the whole state unchanged, whatever its size *)
+Definition copied (other : dmgr) (label : N) (orders : path -> list path * list path) : list dtask :=
+  map load_task (map (fun pe => (fst pe, snd pe, fst (orders (fst pe)), snd (orders (fst pe)))) (src_iter_expr_tasks_owner label other)).
+
+Theorem C17_copy_expr_from_is_source : forall (s : dstate) other label orders ow (m : dmgr) tr,
+  src_copy_expr_from other label orders ow (m, s, tr) =
+  let '(m', s', out) := step m s (MLoad (copied other label orders) ow) in ((m', s', tr), res_of (o_err out)).
+Proof. intros. unfold src_copy_expr_from, copied. apply src_load_eq. Qed.
+
+Theorem C17_copy_expr_from_frozen : forall (s : dstate) other label orders ow (m : dmgr) tr,
+  rejectedb m s (MLoad (copied other label orders) ow) = true ->
+  src_copy_expr_from other label orders ow (set_frozen true m, s, tr) = ((set_frozen true m, s, tr), Err EFrozen).
+Proof.
+  intros s other label orders ow m tr H. rewrite C17_copy_expr_from_is_source.
+  rewrite (frozen_step m s (MLoad (copied other label orders) ow) eq_refl).
+  rewrite H. reflexivity.
+Qed.
+
+Print Assumptions C17_copy_expr_from_is_source.
+Print Assumptions C17_copy_expr_from_frozen.
 Print Assumptions C17_readonly.
 Print Assumptions C17_nonvacuous.
 Print Assumptions C17_frozen_step.
